@@ -1137,6 +1137,8 @@ package bpmn
 //@ func (*harness).ConsumeEvent
 //@   prop C10 C11
 //@   ensures [inactive-activity-forwards-nothing] count(Call, code("event|IConsumer.ConsumeEvent")) > old(count(Call, code("event|IConsumer.ConsumeEvent"))) ==> old(node.active) == 1
+//@   ensures [an-activity-waiting-for-its-answer-forwards-to-every-boundary-listener-once] old(node.active) == 1 ==>
+//@             count(Call, code("event|IConsumer.ConsumeEvent")) == old(count(Call, code("event|IConsumer.ConsumeEvent"))) + old(len(node.eventConsumers))
 
 // Where listeners listen.  A catch event registers with the event egress its wiring has when it is constructed; the
 // harness registers itself with the scope's egress and every boundary listener with *itself* - that is what puts the
@@ -1167,7 +1169,7 @@ package bpmn
 // The relay goroutine of one activation: the activity's answer is passed on unchanged, then the harness is marked
 // inactive (boundary events stop reacting) and says so.
 //@ func (*harness).run$1
-//@   prop C10
+//@   prop C10 C11
 //@   ensures [answer-relayed-unchanged-then-deactivated] isRecv(ev(old(evlen))) && evch(ev(old(evlen))) == in ==>
 //@             evlen == old(evlen) + 3 && isSend(ev(old(evlen) + 1)) && evch(ev(old(evlen) + 1)) == out &&
 //@             evval(ev(old(evlen) + 1)) == evval(ev(old(evlen))) && node.active == 0 &&
@@ -1177,7 +1179,7 @@ package bpmn
 // One activation step of the harness: marked active first, announced, the activity asked, one relay goroutine
 // started, and the relay's output channel handed to the asking token.
 //@ func (*harness).run
-//@   prop C10 C07
+//@   prop C10 C07 C11
 //@   ensures [sender-released-exactly-once-on-exit @C07] count(Call, code("tracing|ISenderHandle.Done")) == old(count(Call, code("tracing|ISenderHandle.Done"))) + 1
 //@   loop 1 for
 //@     invariant count(Call, code("tracing|ISenderHandle.Done")) == old(count(Call, code("tracing|ISenderHandle.Done")))
